@@ -434,6 +434,90 @@ fn canon_ast(v: &Value, intern: &mut Intern, out: &mut Vec<String>) {
     }
 }
 
+/// canonical text of the real tree in the format of the character-layer model (Driver/C16Chars.lean)
+fn canon_chars(v: &Value, out: &mut Vec<String>) {
+    let hx = |s: &str| crate::model::hex(s.as_bytes());
+    let opt = |v: &Value| match v.as_str() {
+        Some(s) => crate::model::hex(s.as_bytes()),
+        None => "~".to_string(),
+    };
+    let bound = |b: &Value| match b["type"].as_str().unwrap_or("") {
+        "inclusive" => format!("i:{}", hx(b["value"].as_str().unwrap_or(""))),
+        "exclusive" => format!("e:{}", hx(b["value"].as_str().unwrap_or(""))),
+        _ => "u".to_string(),
+    };
+    match v["type"].as_str().unwrap_or("") {
+        "bool" => {
+            let cs = v["clauses"].as_array().cloned().unwrap_or_default();
+            out.push("c".into());
+            out.push(cs.len().to_string());
+            for c in cs {
+                out.push(match c[0].as_str() {
+                    None => "-",
+                    Some("should") => "s",
+                    Some("must") => "m",
+                    Some("must_not") => "x",
+                    Some(_) => "?",
+                }.into());
+                canon_chars(&c[1], out);
+            }
+        }
+        "boost" => {
+            out.push("b".into());
+            out.push(v["boost"].as_f64().unwrap_or(f64::INFINITY).to_bits().to_string());
+            canon_chars(&v["underlying"], out);
+        }
+        "literal" => out.extend([
+            "L".to_string(),
+            opt(&v["field_name"]),
+            hx(v["phrase"].as_str().unwrap_or("")),
+            match v["delimiter"].as_str().unwrap_or("") {
+                "none" => "n",
+                "single_quotes" => "s",
+                _ => "d",
+            }.to_string(),
+            v["slop"].to_string(),
+            if v["prefix"] == true { "1".into() } else { "0".into() },
+        ]),
+        "range" => out.extend(["R".to_string(), opt(&v["field"]), bound(&v["lower"]), bound(&v["upper"])]),
+        "set" => {
+            let els: Vec<String> = v["elements"].as_array().map(|a| a.iter().map(|e| hx(e.as_str().unwrap_or(""))).collect()).unwrap_or_default();
+            out.extend(["S".to_string(), opt(&v["field"]), els.len().to_string()]);
+            out.extend(els);
+        }
+        "exists" => out.extend(["E".to_string(), hx(v["field"].as_str().unwrap_or(""))]),
+        "all" => out.push("A".into()),
+        "regex" => out.extend(["X".to_string(), opt(&v["field"]), hx(v["pattern"].as_str().unwrap_or(""))]),
+        other => out.push(format!("?{other}")),
+    }
+}
+
+/// the model's answer with boosts turned into f64 bit patterns (and boosts within EPSILON of 1
+/// dropped, as `boosted_leaf` does on the parsed float)
+fn normalise_model_tree(m: &str) -> String {
+    let rest = match m.strip_prefix("tree ") {
+        Some(r) => r,
+        None => return m.to_string(),
+    };
+    let toks: Vec<&str> = rest.split(',').collect();
+    let mut out: Vec<String> = vec![];
+    let mut i = 0;
+    while i < toks.len() {
+        if toks[i] == "b" && i + 1 < toks.len() {
+            let b: f64 = toks[i + 1].parse().unwrap_or(f64::NAN);
+            if (b - 1.0).abs() > f64::EPSILON {
+                out.push("b".into());
+                out.push(b.to_bits().to_string());
+            }
+            i += 2;
+        } else {
+            out.push(toks[i].to_string());
+            i += 1;
+        }
+    }
+    format!("tree {}", out.join(","))
+}
+
 fn canon(ast: &UserInputAst, intern: &mut Intern) -> String {
     let v = serde_json::to_value(ast).unwrap_or(Value::Null);
     let mut out = vec![];
